@@ -318,6 +318,11 @@ def functional_shard(T):
         "trace_cumulative_value": lambda o, s: inferno.trace_cumulative_value(o, s, decay=decay, scale=SCALE),
         "trace_nearest_tol": lambda o, s: inferno.trace_nearest(o, s, decay=decay, amplitude=amp, target=0.75, tolerance=0.25),
         "trace_cumulative_tol": lambda o, s: inferno.trace_cumulative(o, s, decay=decay, amplitude=amp, target=0.75, tolerance=0.25),
+        # the matching value is whatever the target says, zero included: an all-zero observation is then an event everywhere
+        # (these two are fed the same value in both elements, so whole observations are all-zero or all-one)
+        "trace_nearest_t0": lambda o, s: inferno.trace_nearest(o, s, decay=decay, amplitude=amp, target=0.0),
+        "trace_cumulative_t0": lambda o, s: inferno.trace_cumulative(o, s, decay=decay, amplitude=amp, target=0.0),
+        "trace_cumulative_t0_tol": lambda o, s: inferno.trace_cumulative(o, s, decay=decay, amplitude=amp, target=0.125, tolerance=0.25),
     }
     for name, f, odt in [(n, f_, torch.float32) for n, f_ in fns.items()] + \
                         [(n, fns[n], d) for n in ("trace_nearest", "trace_cumulative", "exp_trace_nearest", "exp_trace_cumulative",
@@ -326,11 +331,12 @@ def functional_shard(T):
         for hist in itertools.product((0.0, 1.0), repeat=T if odt == torch.float32 else min(T, 5)):
             state = None
             for i, x in enumerate(hist):
-                state = f(torch.tensor([x, 1.0 - x]).to(odt), state)
+                t0 = "_t0" in name
+                state = f(torch.tensor([x, x if t0 else 1.0 - x]).to(odt), state)
                 tally.add("steps")
                 for e in range(2):
-                    h = [v if e == 0 else 1.0 - v for v in hist[: i + 1]]
-                    js = [j for j in range(i + 1) if h[j] == 1.0]
+                    h = [v if (e == 0 or t0) else 1.0 - v for v in hist[: i + 1]]
+                    js = [j for j in range(i + 1) if h[j] == (0.0 if t0 else 1.0)]
                     if name.endswith("value"):
                         exp = sum(SCALE * h[j] * decay ** (i - j) for j in range(i + 1))
                     elif "scaled" in name:
